@@ -75,7 +75,10 @@ struct Rx {
 	bool is_raw = false;
 };
 
+struct SentQ { uint64_t t; uint16_t id; std::string name; uint16_t qtype; sim::Addr src; Bytes dgram; };
+
 struct ScriptClient {
+	std::vector<SentQ> sent;            // every query sent through send_name()
 	sim::Addr addr;                     // own (ip, port)
 	sim::Addr server = sim::Addr();
 	std::string domain;
